@@ -1,7 +1,7 @@
 use super::{
     Field, Namespace, Node, Rc, RustDocument, RustType, TryFromNode, WriterError, WriterResult, parse_comment,
 };
-use crate::model::{field::resolve_type, node::collect_namespaces_on_node};
+use crate::model::{doc::ComponentKind, field::resolve_type, node::collect_namespaces_on_node};
 
 #[derive(Debug, PartialEq, Default)]
 pub struct ComplexProps {
@@ -145,7 +145,7 @@ fn import_extension_fields(node: &mut Node, doc: &mut RustDocument, base_fields:
             .ok_or_else(|| WriterError::attribute_missing(node, "base"))?;
         let (xml_name, namespace_abbreviation) = resolve_type(xml_name, doc);
         let base_node = doc
-            .find_node_by_xml_name(node, xml_name, namespace_abbreviation.as_deref())
+            .find_node_by_xml_name(node, xml_name, namespace_abbreviation.as_deref(), Some(ComponentKind::Type))
             .ok_or_else(|| WriterError::NodeNotFound(xml_name.to_string()))?;
 
         match &base_node.rust_type {
